@@ -324,16 +324,22 @@ impl XRefTable {
     // proved in units/updater: XRefTable::push/push_appends
     #[verifier::external_body]
     pub fn push(&mut self, new_entry: XRef) ensures final(self).entries@ == old(self).entries@.push(new_entry) { unimplemented!() }
+    // proved in units/updater: XRefTable::set/set_update (call site here: the error path of Storage::create, fix failed_create_blocks_save)
+    #[verifier::external_body]
+    pub fn set(&mut self, id: ObjNr, r: XRef) requires id < old(self).entries@.len() ensures final(self).entries@ == old(self).entries@.update(id as int, r) { unimplemented!() }
 }
 impl<T> RcRef<T> {
     // proved in units/updater: RcRef::new/new_fields
     #[verifier::external_body]
     pub fn new(inner: PlainRef, data: Shared<T>) -> (r: RcRef<T>) ensures r.inner == inner && r.data == data { unimplemented!() }
 }
-// abstract callee of `create`: any writer, free to allocate further objects through the updater (no contract: the storage is
-// havocked; what it does to the table is the subject of units/updater)
+// abstract callee of `create`: any writer, free to allocate further objects through the updater (the storage is havocked
+// except that the table does not shrink; what else it does to the table is the subject of units/updater)
 pub trait ObjectWrite: Sized {
-    fn to_primitive(&self, update: &mut Storage) -> (r: Result<Primitive>);
+    // the one clause kept: ids are only appended (the `extends` clause of the TRUSTED env contract of `to_primitive` in units/updater);
+    // Storage::create relies on it when it frees the reserved number on its error path
+    fn to_primitive(&self, update: &mut Storage) -> (r: Result<Primitive>)
+        ensures final(update).refs.entries@.len() >= old(update).refs.entries@.len();
 }
 // `impl Updater for Storage` (file.rs:392), the crate's only real updater: its `create` hands back the value it was given under
 // the next free object number -- this is the clause `*rc.data == obj` of the env trait `Updater` above, proved for Storage.
